@@ -15,6 +15,15 @@ T = {
  "C08-ud-value-from-ui": ("C08", "Ledger certificate whose signer message carries a UD value different from the UI message's (prints the UI's)", "caught as written (UI and signer UD values are drawn independently; printed values compared with signed ones)"),
  "C09-stale-version-cache": ("C09", "bootloader start with supported UI version, successful unlock, then an unsupported signer version (IS_ONBOARD reply cached across the mode switch)", "caught as written (grid has independent UI and signer versions)"),
  "C10-abort-removes-file": ("C10", "existing PIN file + forced change + device refuses or errors on the new PIN (abort_change deletes the file)", "caught as written (file0 present x force x refuse/error reactions)"),
+ "C11-merkle-step-swallows-commerror": ("C11", "authorized sign with a write/read error during the merkle-proof exchanges only (a broad except swallows the comm error: reply is still -905 but the comm-issue flag is not set)", "caught as written (every exchange index x fault kind x follow-up x reconnection outcome)"),
+ "C12-timeout-without-cancel": ("C12", "a multi-APDU request takes more than 10 s of cumulative device time while another client connects (request time-out without cancelling the worker)", "MISSED at first (device-side delays were at most 3 ms); caught after adding the 'slow-device' stage (exchanges of 0.6-1.4 s each, below the 10 s link time-out, adding up to more)"),
+ "C13-parameters-cache": ("C13", "two blockchainParameters queries on one manager lifetime with the device's parameters changing in between (cache survives reconnection)", "MISSED at first by C13 (one query per fresh manager; C11 flagged it incidentally); caught after C13 was changed to histories of 1..3 queries over one manager with the device state changing between them"),
+ "C14-empty-script-slice": ("C14", "transaction with an input whose script is empty (ops[-1:] instead of [ops[-1]])", "caught as written (malformed variant 'empty-script' through the protocol)"),
+ "C15-add-element-setdefault": ("C15", "attestation run a second time starting from the certificate file the first run wrote (add_element no longer replaces ui/signer)", "MISSED at first (each flow gathered once); caught after adding the 'refresh' history (second attestation from the first one's output, new UD value and device state)"),
+ "C16-cycle-excluding-target": ("C16", "target whose signer chain leads into a cycle that does not contain the target", "caught as written (cycle2/cycle3/self-signed defects with and without the target inside the cycle; watchdog)"),
+ "C17-empty-signatures-success": ("C17", "authorization file with zero signatures (result stays None, taken as success)", "caught as written (0..10 signatures x thresholds)"),
+ "C18-regex-dollar-newline": ("C18", "PIN given as an option consisting of 7 alphanumerics and a trailing newline (regex $ matches before it)", "MISSED at first (PIN classes had no control characters); caught after adding newline / CR / NUL / space / non-ASCII-digit PIN classes to C18 and near-valid probes to C10's validity-predicate stage"),
+ "C19-message-reuses-old-file": ("C19", "signapp message -o <file> when <file> already holds an authorization written for another image", "MISSED at first (message was only printed, never written twice to one path); caught after C19 writes the authorization of each image of a run to the same output path and compares the embedded hash"),
 }
 
 
